@@ -55,17 +55,17 @@ theorem core_entry_never_falls_off (cf : Core.Config) (args : List Int) (pr : Co
 /-- every activation of a core function whose body does not fall through ends at the return
 address its caller stored, with the caller's frame intact (instance of `C08.core_scope_exit…`
 for `return` / `return e`) -/
-theorem core_activation_returns_to_caller {p : Sphinx.Prog} {ck : Bool} {B : Nat} {fa : Core.FAddr} {fns : List Core.FDecl}
-    (lib : Sphinx.Placed p B) (fok : Core.FnsOK p ck B fa fns) (fuel F D ra : Nat) (hra : ra < 256 ^ p.w)
-    (lp : Nat × Nat) (hlp : lp.1 < 256 ^ p.w ∧ lp.2 < 256 ^ p.w) (s : Core.S) (Γ : Core.Gam) (env : Core.Env) (pc o : Nat) (m : Sphinx.Mem) (env' : Core.Env) (tr : List Ev) (res : Core.Res)
-    (hpl : Sphinx.PlacedAt p pc (Core.cS (Core.cxOf p ck B) fa lp Γ pc o s))
-    (hB : pc + (Core.cS (Core.cxOf p ck B) fa lp Γ pc o s).length ≤ B)
-    (hinv : Core.SInv p Γ env m F D o ra) (hd : Core.Disj p.w Γ) (hwf : Core.wfS (Γ.map Prod.fst) s = true)
+theorem core_activation_returns_to_caller {p : Sphinx.Prog} {ck : Bool} {B dA : Nat} {fa : Core.FAddr} {fns : List Core.FDecl}
+    (lib : Sphinx.Placed p B) (fok : Core.FnsOK p ck B dA fa fns) (fuel F D ra : Nat) (hra : ra < 256 ^ p.w)
+    (lp : Core.Jt) (hlp : lp.cont < 256 ^ p.w ∧ lp.brk < 256 ^ p.w) (hvd : lp.vd = false) (s : Core.S) (Γ : Core.Gam) (env : Core.Env) (pc o : Nat) (m : Sphinx.Mem) (env' : Core.Env) (tr : List Ev) (res : Core.Res)
+    (hpl : Sphinx.PlacedAt p pc (Core.cS (Core.cxOf p ck B dA) fa lp Γ pc o s))
+    (hB : pc + (Core.cS (Core.cxOf p ck B dA) fa lp Γ pc o s).length ≤ B)
+    (hinv : Core.SInv p .plain Γ env m F D o ra) (hd : Core.Disj p.w Γ) (hwf : Core.wfS false (Γ.map Prod.fst) s = true)
     (hpk : Core.pkS p.w o s ≤ D) (ho : p.w ≤ o) (hnt : Core.noTry s = true)
     (hex : Core.exec (256 ^ p.w) (8 * p.w) fns p.w fuel D o env s = some (env', tr, res))
     (hres : res = .returned ∨ ∃ v, res = .retv v) :
     ∃ st', PSys.Reach (Sphinx.sphinx p) ⟨pc, m⟩ tr st' ∧ st'.pc = ra ∧ Core.Keep p.w m st'.mem F := by
-  obtain ⟨st', r, k, _, _, h2⟩ := Core.core_frame_restored lib fok fuel F D ra hra lp hlp s Γ env pc o m env' tr res hpl hB hinv hd
+  obtain ⟨st', r, k, _, _, h2⟩ := Core.core_frame_restored lib fok fuel F D ra hra lp hlp hvd s Γ env pc o m env' tr res hpl hB hinv hd
     hwf hpk ho hnt hex (Or.inr hres)
   exact ⟨st', r, h2 (by rcases hres with h | ⟨v, h⟩ <;> subst h <;> simp), k⟩
 
